@@ -25,6 +25,7 @@ def read(rel):
 
 
 def strip_comments(src):
+    src = re.sub(r"/\*.*?\*/", " ", src, flags=re.S)
     src = re.sub(r"//[^\n]*", "", src)
     return src
 
@@ -269,6 +270,13 @@ def generate():
         def group(self, i): return self.a
     mu = _M(args[1])
     mlen = re.sub(r"\s+", "", mu.group(1))
+    # a length held in a local (`let bytes = …; munmap(ptr, bytes)`) is resolved through its (single) binding in the
+    # enclosing `drop` body
+    if re.fullmatch(r"[A-Za-z_]\w*", mlen):
+        dm = re.search(r"impl\s+Drop\s+for\s+MemoryMap\s*\{(.*?)\n\}", ser, re.S)
+        binds = re.findall(r"let\s+%s(?:\s*:\s*usize)?\s*=\s*([^;]+);" % re.escape(mlen), dm.group(1)) if dm else []
+        if len(binds) == 1:
+            mlen = re.sub(r"\s+", "", binds[0])
     if mlen == "self.len":
         munmap_factor = 1
     elif mlen in ("self.len*8", "8*self.len", "bits::words_to_bytes(self.len)", "self.len*bits::WORD_BYTES",
